@@ -18,6 +18,15 @@ class _PositioningTracker:
         # this attribute is used to store it and determine by comparison if the
         # next positioning is actually a Tab Offset
         self._last_column = None
+        # True from the start of a new caption until its first positioning
+        self._new_caption = False
+
+    def reset(self):
+        """Called when a new caption is started: its first positioning must
+        not be interpreted relative to the rows of the previous caption
+        (the row below them is not a line break of the new caption)
+        """
+        self._new_caption = True
 
     def update_positioning(self, positioning):
         """Being notified of a position change, updates the internal state,
@@ -33,6 +42,15 @@ class _PositioningTracker:
             if positioning:
                 # Set the positioning for the first time
                 self._positions = [positioning]
+                self._new_caption = False
+            return
+
+        if self._new_caption:
+            self._new_caption = False
+            if positioning != self._positions[0]:
+                self._repositioning_required = True
+            self._positions = [positioning]
+            self._break_required = False
             return
 
         row, col = current
